@@ -253,3 +253,197 @@ Example c32_nonvacuous_trace :
   (* index entry pointing at a pack that does not contain the blob *)
   run_ok ex_st0 [DPack 1 [100]; DIndex [(1, 100); (1, 5)]; DSnap 60 [100; 5]]%N = false.
 Proof. vm_compute. repeat split. Qed.
+
+(* ---------- (c) copyTree / CopyBlobs ---------- *)
+
+Lemma memN_In x l : memN x l = true <-> In x l.
+Proof.
+  induction l as [|y r IH]; cbn [memN In]; [split; [discriminate | tauto]|].
+  rewrite orb_true_iff, N.eqb_eq, IH. split; intros [H|H]; auto.
+Qed.
+
+Lemma add_missing_In dst bs : forall acc x,
+  In x (add_missing dst acc bs) <-> In x acc \/ (In x bs /\ ~ In x dst).
+Proof.
+  induction bs as [|b r IH]; intros acc x; cbn [add_missing In]; [tauto|].
+  rewrite IH. destruct (memN b dst) eqn:Md; cbn [orb].
+  - apply memN_In in Md. split; [intros [H|[H1 H2]]; auto | intros [H|[[H|H] H2]]; auto].
+    subst. contradiction.
+  - assert (Hnd : ~ In b dst) by (intro H; apply memN_In in H; congruence).
+    destruct (memN b acc) eqn:Ma.
+    + apply memN_In in Ma. split; [intros [H|[H1 H2]]; auto | intros [H|[[H|H] H2]]; auto]. subst; auto.
+    + rewrite in_app_iff. cbn [In]. split.
+      * intros [[H|[H|[]]]|[H1 H2]]; auto. subst. right; auto.
+      * intros [H|[[H|H] H2]]; auto.
+Qed.
+
+(* reachability in the source tree graph: the blobs a snapshot with root t needs *)
+Inductive reach (g : graph) : N -> N -> Prop :=
+| reach_self t : reach g t t
+| reach_data t subs datas d : glookup g t = Some (subs, datas) -> In d datas -> reach g t d
+| reach_sub t subs datas s b : glookup g t = Some (subs, datas) -> In s subs -> reach g s b -> reach g t b.
+
+(* S is a set of trees closed under subtrees all of whose blobs (tree + data) are in D *)
+Definition covered (g : graph) (S D : list N) : Prop :=
+  forall t, In t S ->
+    In t D /\ exists subs datas, glookup g t = Some (subs, datas) /\
+      (forall d, In d datas -> In d D) /\ (forall s, In s subs -> In s S).
+
+Lemma covered_reach g S D : covered g S D -> forall t b, reach g t b -> In t S -> In b D.
+Proof.
+  intros Hc t b Hr. induction Hr as [t|t subs datas d Hl Hd|t subs datas s b Hl Hs Hr IH]; intros Ht.
+  - apply (Hc t Ht).
+  - destruct (Hc t Ht) as (_ & subs' & datas' & Hl' & Hdat & _). rewrite Hl in Hl'. inversion Hl'; subst. auto.
+  - destruct (Hc t Ht) as (_ & subs' & datas' & Hl' & _ & Hsub). rewrite Hl in Hl'. inversion Hl'; subst. auto.
+Qed.
+
+(* loop invariant of the walk *)
+Definition Jinv (g : graph) (dst work visited acc : list N) : Prop :=
+  forall t, In t visited ->
+    In t (dst ++ acc) /\ exists subs datas, glookup g t = Some (subs, datas) /\
+      (forall d, In d datas -> In d (dst ++ acc)) /\ (forall s, In s subs -> In s visited \/ In s work).
+
+Lemma in_dst_acc (dst acc : list N) x : In x dst \/ In x acc <-> In x (dst ++ acc).
+Proof. rewrite in_app_iff. tauto. Qed.
+
+Lemma walk_inv g dst : forall fuel work visited acc v a,
+  Jinv g dst work visited acc ->
+  walk g dst fuel work visited acc = WOk v a ->
+  Jinv g dst [] v a /\ (forall x, In x visited -> In x v) /\ (forall x, In x work -> In x v) /\
+  (forall x, In x acc -> In x a) /\ (forall x, In x a -> In x acc \/ ~ In x dst).
+Proof.
+  induction fuel as [|f IH]; intros work visited acc v a HJ Hw; cbn [walk] in Hw; [discriminate|].
+  destruct work as [|t rest].
+  - inversion Hw; subst. split; [exact HJ|]. split; [auto|]. split; [intros x []|]. split; [auto|].
+    intros x Hx; left; exact Hx.
+  - destruct (memN t visited) eqn:Mv.
+    + apply memN_In in Mv.
+      assert (HJ' : Jinv g dst rest visited acc).
+      { intros u Hu. destruct (HJ u Hu) as (A & subs & datas & Hl & Hd & Hs). split; [exact A|].
+        exists subs, datas. split; [exact Hl|]. split; [exact Hd|].
+        intros s Hin. destruct (Hs s Hin) as [H|[H|H]]; auto. subst; auto. }
+      destruct (IH rest visited acc v a HJ' Hw) as (B1 & B2 & B3 & B4 & B5).
+      split; [exact B1|]. split; [exact B2|]. split; [|split; [exact B4 | exact B5]].
+      intros x [Hx|Hx]; [subst; apply B2; exact Mv | apply B3; exact Hx].
+    + destruct (glookup g t) as [[subs datas]|] eqn:Hl; [|discriminate].
+      set (acc' := add_missing dst acc (t :: datas)) in *.
+      assert (Hacc : forall x, In x (dst ++ acc) -> In x (dst ++ acc')).
+      { intros x Hx. apply in_dst_acc. apply in_dst_acc in Hx as [Hx|Hx]; [left; exact Hx|].
+        right. apply add_missing_In. left; exact Hx. }
+      assert (Hnew : forall x, In x (t :: datas) -> In x (dst ++ acc')).
+      { intros x Hx. apply in_dst_acc. destruct (in_dec N.eq_dec x dst) as [Hd|Hd]; [left; exact Hd|].
+        right. apply add_missing_In. right. split; assumption. }
+      assert (HJ' : Jinv g dst (subs ++ rest) (t :: visited) acc').
+      { intros u [Hu|Hu].
+        - subst u. split; [apply Hnew; left; reflexivity|].
+          exists subs, datas. split; [exact Hl|]. split.
+          + intros d Hd. apply Hnew. right; exact Hd.
+          + intros s Hs. right. apply in_or_app. left; exact Hs.
+        - destruct (HJ u Hu) as (A & subs' & datas' & Hl' & Hd' & Hs'). split; [apply Hacc; exact A|].
+          exists subs', datas'. split; [exact Hl'|]. split; [intros d Hd; apply Hacc, Hd'; exact Hd|].
+          intros s Hin. destruct (Hs' s Hin) as [H|[H|H]].
+          + left. right; exact H.
+          + subst s. left. left; reflexivity.
+          + right. apply in_or_app. right; exact H. }
+      destruct (IH (subs ++ rest) (t :: visited) acc' v a HJ' Hw) as (B1 & B2 & B3 & B4 & B5).
+      split; [exact B1|]. split; [intros x Hx; apply B2; right; exact Hx|].
+      split; [intros x [Hx|Hx]; [subst; apply B2; left; reflexivity | apply B3, in_or_app; right; exact Hx]|].
+      split; [intros x Hx; apply B4, add_missing_In; left; exact Hx|].
+      intros x Hx. destruct (B5 x Hx) as [H|H]; [|right; exact H].
+      apply add_missing_In in H as [H|[_ H]]; [left; exact H | right; exact H].
+Qed.
+
+Lemma walk_mono_visited g dst : forall fuel work visited acc v a,
+  walk g dst fuel work visited acc = WOk v a -> forall x, In x visited -> In x v.
+Proof.
+  induction fuel as [|f IH]; intros work visited acc v a Hw x Hx; cbn [walk] in Hw; [discriminate|].
+  destruct work as [|t rest]; [inversion Hw; subst; exact Hx|].
+  destruct (memN t visited); [apply (IH _ _ _ _ _ Hw x Hx)|].
+  destruct (glookup g t) as [[subs datas]|]; [|discriminate].
+  apply (IH _ _ _ _ _ Hw x). right; exact Hx.
+Qed.
+
+(* every enqueued blob is the blob of a visited tree or one of its files' data blobs *)
+Lemma walk_acc_origin g dst x : forall fuel work visited acc v a,
+  walk g dst fuel work visited acc = WOk v a ->
+  In x a -> In x acc \/ exists t, In t v /\ reach g t x.
+Proof.
+  induction fuel as [|f IH]; intros work visited acc v a Hw Hx; cbn [walk] in Hw; [discriminate|].
+  destruct work as [|t rest]; [inversion Hw; subst; left; exact Hx|].
+  destruct (memN t visited); [apply (IH _ _ _ _ _ Hw Hx)|].
+  destruct (glookup g t) as [[subs datas]|] eqn:Hl; [|discriminate].
+  pose proof (walk_mono_visited g dst f _ _ _ v a Hw) as Hmono.
+  destruct (IH _ _ _ _ _ Hw Hx) as [H|H]; [|right; exact H].
+  apply add_missing_In in H as [H|[[H|H] _]]; [left; exact H| |].
+  - subst x. right. exists t. split; [apply Hmono; left; reflexivity | apply reach_self].
+  - right. exists t. split; [apply Hmono; left; reflexivity | eapply reach_data; eassumption].
+Qed.
+
+(* one copyTree + CopyBlobs keeps "every visited tree's closure is in the destination", visits the root,
+   never forgets anything and uploads only blobs the destination did not have *)
+Theorem copy_tree_sound g fuel visited dst root v' d' :
+  covered g visited dst ->
+  copy_tree g fuel (visited, dst) root = Some (v', d') ->
+  covered g v' d' /\ In root v' /\ (forall x, In x visited -> In x v') /\ (forall x, In x dst -> In x d') /\
+  (forall x, In x d' -> In x dst \/ (~ In x dst /\ exists t, In t v' /\ reach g t x)).
+Proof.
+  intros Hc Hct. unfold copy_tree in Hct.
+  destruct (walk g dst fuel [root] visited []) as [v a| |] eqn:Hw; try discriminate. inversion Hct; subst v' d'.
+  assert (HJ : Jinv g dst [root] visited []).
+  { intros t Ht. destruct (Hc t Ht) as (A & subs & datas & Hl & Hd & Hs). split; [apply in_or_app; left; exact A|].
+    exists subs, datas. split; [exact Hl|]. split; [intros d Hdd; apply in_or_app; left; apply Hd; exact Hdd|].
+    intros s Hin. left. apply Hs; exact Hin. }
+  destruct (walk_inv g dst fuel [root] visited [] v a HJ Hw) as (B1 & B2 & B3 & B4 & B5).
+  assert (Hcov : covered g v (dst ++ a)).
+  { intros t Ht. destruct (B1 t Ht) as (A & subs & datas & Hl & Hd & Hs). split; [exact A|].
+    exists subs, datas. split; [exact Hl|]. split; [exact Hd|].
+    intros s Hin. destruct (Hs s Hin) as [H|[]]; exact H. }
+  split; [exact Hcov|]. split; [apply B3; left; reflexivity|]. split; [exact B2|].
+  split; [intros x Hx; apply in_or_app; left; exact Hx|].
+  intros x Hx. apply in_app_iff in Hx as [Hx|Hx]; [left; exact Hx|]. right.
+  destruct (B5 x Hx) as [[]|Hnd]. split; [exact Hnd|].
+  destruct (walk_acc_origin g dst x fuel [root] visited [] v a Hw Hx) as [[]|H]. exact H.
+Qed.
+
+
+(* visited_skip_sound: when the skip callback finds a tree in visitedTrees (between copyTree calls the
+   invariant [covered] holds), the tree's whole closure is already in the destination's blob set
+   (index incl. blobs uploaded earlier in this run) *)
+Theorem visited_skip_sound g visited dst t b :
+  covered g visited dst -> In t visited -> reach g t b -> In b dst.
+Proof. intros Hc Ht Hr. exact (covered_reach g visited dst Hc t b Hr Ht). Qed.
+
+Theorem copy_trees_sound g fuel : forall roots visited dst v' d',
+  covered g visited dst ->
+  copy_trees g fuel (visited, dst) roots = Some (v', d') ->
+  covered g v' d' /\ (forall r, In r roots -> In r v') /\
+  (forall x, In x visited -> In x v') /\ (forall x, In x dst -> In x d').
+Proof.
+  induction roots as [|r rest IH]; intros visited dst v' d' Hc H; cbn [copy_trees] in H.
+  - inversion H; subst. split; [exact Hc|]. split; [intros r []|]. split; auto.
+  - destruct (copy_tree g fuel (visited, dst) r) as [[v1 d1]|] eqn:E; [|discriminate].
+    destruct (copy_tree_sound g fuel visited dst r v1 d1 Hc E) as (C1 & R1 & V1 & D1 & _).
+    destruct (IH v1 d1 v' d' C1 H) as (C2 & R2 & V2 & D2).
+    split; [exact C2|]. split; [intros x [Hx|Hx]; [subst; apply V2; exact R1 | apply R2; exact Hx]|].
+    split; [intros x Hx; apply V2, V1; exact Hx | intros x Hx; apply D2, D1; exact Hx].
+Qed.
+
+(* copy_faithful (data level): after the trees of all selected snapshots were copied (visitedTrees
+   empty at the start of the run), every blob any of them needs is in the destination's blob set,
+   whatever the destination held before *)
+Theorem copy_run_closure g fuel roots dst v' d' :
+  copy_trees g fuel ([], dst) roots = Some (v', d') ->
+  forall r b, In r roots -> reach g r b -> In b d'.
+Proof.
+  intros H r b Hr Hb.
+  assert (Hc : covered g [] dst) by (intros t []).
+  destruct (copy_trees_sound g fuel roots [] dst v' d' Hc H) as (C & R & _ & _).
+  exact (covered_reach g v' d' C r b Hb (R r Hr)).
+Qed.
+
+(* two snapshots sharing the subtree 20: the second walk skips it, nothing is uploaded twice, and the
+   destination ends with both closures although it knew blob 5 only *)
+Definition ex_graph : graph := [(10, ([20], [1; 2])); (11, ([20], [2; 3])); (20, ([], [4; 5]))]%N.
+Example c32_nonvacuous_walk :
+  copy_trees ex_graph 20 ([], [5]%N) [10; 11]%N = Some ([11; 20; 10]%N, [5; 10; 1; 2; 20; 4; 11; 3]%N).
+Proof. vm_compute. reflexivity. Qed.
